@@ -268,11 +268,19 @@ def to_z3(x, charsets=None):
     raise HarnessError(f'to_z3: unknown node {op}')
 
 
+def sval(s):
+    """z3 string constant for the Python string s.  z3.StringVal leaves a literal backslash as is, so a Python
+    string containing backslash-u-hex would be re-read by z3 as a unicode escape; here the backslash itself is
+    escaped."""
+    enc = ''.join(ch if 32 <= ord(ch) < 127 and ch != '\\' else '\\u{%x}' % ord(ch) for ch in s)
+    return z3.SeqRef(z3.Z3_mk_string(z3.main_ctx().ref(), enc), z3.main_ctx())
+
+
 def in_lang(zre, s):
     """Concrete membership decided by z3 (used for translator validation)."""
     v = z3.String('s')
     sol = z3.Solver()
-    sol.add(v == z3.StringVal(s), z3.InRe(v, zre))
+    sol.add(v == sval(s), z3.InRe(v, zre))
     r = str(sol.check())
     if r == 'unknown':
         raise HarnessError(f'z3 could not decide membership of {s!r}')
